@@ -354,6 +354,66 @@ func main() {
 			t.Outcome("as-fresh")
 		})
 
+		// One Extension serves a connection after the other (Reset in between): every history of up
+		// to 6 (7) upgrades over 8 different offers, each offer parsed in a buffer of its own that is
+		// scribbled over afterwards. Every answer along the way is the answer a fresh Extension gives.
+		r.Part("E1e-long-histories-of-one-negotiator", func(t *explore.T) {
+			pick := []P{{}, {false, false, 10, 0}, {false, false, 0, 1}, {false, false, 0, 10}, {true, false, 0, 0}, {false, true, 12, 0}, {true, true, 8, 8}, {false, false, 15, 15}}
+			depth := t.Pick(6, 7)
+			cfgsHere := []P{{}, {false, false, 12, 0}, {true, false, 0, 12}, {false, true, 0, 0}, {true, true, 10, 10}, {false, false, 15, 15}}
+			t.Par(len(cfgsHere)*len(pick), func(i int) {
+				cfg, firstOffer := cfgsHere[i/len(pick)], i%len(pick)
+				fresh := make([]string, len(pick))
+				for k, o := range pick {
+					f := &wsflate.Extension{Parameters: cfg}
+					a, err := f.Negotiate(offerOption(o))
+					fresh[k] = fmt.Sprintf("%s err=%v", optStr(a), err)
+				}
+				var rec func(hist []int) *explore.Fail
+				run := func(hist []int) *explore.Fail {
+					e := &wsflate.Extension{Parameters: cfg}
+					for step, k := range hist {
+						var hdr bytes.Buffer
+						httphead.WriteOptions(&hdr, []httphead.Option{offerOption(pick[k])})
+						raw := append([]byte{}, hdr.Bytes()...)
+						parsed, ok := httphead.ParseOptions(raw, nil)
+						if !ok || len(parsed) != 1 {
+							return explore.Failf("harness-offer-rendering", "%q", raw)
+						}
+						a, err := e.Negotiate(parsed[0])
+						got := fmt.Sprintf("%s err=%v", optStr(a), err)
+						for j := range raw {
+							raw[j] = 0xDD
+						}
+						if got != fresh[k] {
+							return explore.Failf("answer-depends-on-earlier-upgrades-of-the-same-negotiator", "upgrade #%d of history %v (offer%s): %s; a fresh negotiator: %s", step, hist, ps(pick[k]), got, fresh[k])
+						}
+						e.Reset()
+					}
+					return nil
+				}
+				rec = func(hist []int) *explore.Fail {
+					if len(hist) == depth {
+						return run(hist)
+					}
+					for k := range pick {
+						if f := rec(append(hist, k)); f != nil {
+							return f
+						}
+					}
+					return nil
+				}
+				n := int64(1)
+				for j := 1; j < depth; j++ {
+					n *= int64(len(pick))
+				}
+				t.DoN(n, func() string {
+					return fmt.Sprintf("config%s: every history of %d upgrades starting with offer%s", ps(cfg), depth, ps(pick[firstOffer]))
+				}, func() *explore.Fail { return rec([]int{firstOffer}) })
+			})
+			t.Outcome("as-fresh")
+		})
+
 		r.Part("E1b-through-Upgrader", func(t *explore.T) {
 			stride := t.Pick(7, 1)
 			t.Par(len(cfgs), func(ci int) {
